@@ -25,7 +25,7 @@ type c16Field struct {
 }
 
 var c16Specs = map[string]c16Field{
-	"a":  {"a", "abc", "x", "min"},
+	"a":  {"a", "abcdef", "x", "min"},
 	"a5": {"a5", "abcdef", "abc", "min"},
 	"b":  {"b", 5, -1, "gt"},
 	"c":  {"c", true, false, "eq"},
@@ -353,6 +353,18 @@ func c16Scenario(depth, k, p int) mc.Scenario {
 					nm.fields["d"] = "d"
 					derive(s.Extend(z.Schema{"d": c16Build("d")}), nm)
 				}})
+				// a key that differs from an existing one only in the case of its first letter: both name the same Go field, and
+				// both are fields of the result (exactly the union of the keys)
+				ops = append(ops, op{"Extend({A:Min(5)})", func() {
+					nm := m.clone()
+					nm.fields["A"] = "a5"
+					derive(s.Extend(z.Schema{"A": c16Build("a5")}), nm)
+				}})
+				ops = append(ops, op{"Merge(fresh Struct{A:Min(5)})", func() {
+					nm := m.clone()
+					nm.fields["A"] = "a5"
+					derive(s.Merge(z.Struct(z.Schema{"A": c16Build("a5")})), nm)
+				}})
 				ops = append(ops, op{"Extend({a:Min(5)})", func() {
 					nm := m.clone()
 					nm.fields["a"] = "a5"
@@ -523,7 +535,7 @@ func c16Depth(tier string) int {
 func init() {
 	Register(&Prop{
 		ID:    "C16",
-		Rule:  "one execution = one builder history: base Struct{a,b,c} with 0..3 tests and 0..2 PostTransforms appended one by one (capacities 0,1,2,4), then ≤depth events, each applied to any of ≤3 live schemas from {Pick(keys|map), Omit(keys|map), Extend(new field | overriding field | one shared three-field Schema value reused by every such call | nothing), Merge(other live schema | a fresh one-field schema with 0..1 tests and a PostTransform | a fresh nine-field schema that redefines a field | two operands one of which has no fields but a failing test and a PostTransform, in either position [, more]), Test, TestFunc, PostTransform}; after every event every live schema is probed (all fields valid; first field failing) on the real code and compared with the model's hand-built equivalent (tests run, their order, PostTransforms run, issues, destination). every history is non-trivial; distinct = distinct final model states of all live schemas",
+		Rule:  "one execution = one builder history: base Struct{a,b,c} with 0..3 tests and 0..2 PostTransforms appended one by one (capacities 0,1,2,4), then ≤depth events, each applied to any of ≤3 live schemas from {Pick(keys|map), Omit(keys|map), Extend(new field | overriding field | a key differing from an existing one only in the case of its first letter | one shared three-field Schema value reused by every such call | nothing), Merge(other live schema | a fresh one-field schema with 0..1 tests and a PostTransform | a fresh nine-field schema that redefines a field | two operands one of which has no fields but a failing test and a PostTransform, in either position [, more]), Test, TestFunc, PostTransform}; after every event every live schema is probed (all fields valid; first field failing) on the real code and compared with the model's hand-built equivalent (tests run, their order, PostTransforms run, issues, destination). every history is non-trivial; distinct = distinct final model states of all live schemas",
 		Floor: 50,
 		Bound: func(tier string) string { return fmt.Sprintf("all histories of depth ≤%d over ≤3 live schemas", c16Depth(tier)) },
 		Assumptions: []string{
